@@ -86,36 +86,46 @@ func (zset *ZSet) Add(nms []*ZSetMember, opt ZAddOption) int {
 	return addedMemberCount
 }
 
+// limitZSetMembers returns the members selected by the LIMIT offset and count
+// (a negative count selects all remaining members).
+func limitZSetMembers(mems []*ZSetMember, opt ZRangeOption) []*ZSetMember {
+	offset := opt.Offset
+	if offset < 0 || len(mems) < offset {
+		offset = len(mems)
+	}
+	end := len(mems)
+	if 0 <= opt.Count && opt.Count < (end-offset) {
+		end = offset + opt.Count
+	}
+	return mems[offset:end]
+}
+
 func (zset *ZSet) Range(start int, stop int, opt ZRangeOption) []*ZSetMember {
+	members := zset.members
+	if opt.REV {
+		// The indexes of a reverse range count from the highest score.
+		members = reverseZSetMembers(append([]*ZSetMember{}, members...))
+	}
+
 	if start < 0 {
-		start = len(zset.members) + start
+		start = len(members) + start
 	}
 	if stop < 0 {
-		stop = len(zset.members) + stop
+		stop = len(members) + stop
+	}
+	if start < 0 {
+		start = 0
+	}
+	if (len(members) - 1) < stop {
+		stop = len(members) - 1
 	}
 
 	mems := []*ZSetMember{}
 	for n := start; n <= stop; n++ {
-		if (n < 0) || ((len(zset.members) - 1) < n) {
-			continue
-		}
-		mems = append(mems, zset.members[n])
+		mems = append(mems, members[n])
 	}
 
-	offset := opt.Offset
-	if offset < 0 {
-		offset = 0
-	}
-	count := opt.Count
-	if count < 0 {
-		count = len(mems)
-	}
-
-	if !opt.REV {
-		return mems[offset:count]
-	}
-
-	return reverseZSetMembers(mems[offset:count])
+	return limitZSetMembers(mems, opt)
 }
 
 func (zset *ZSet) RangeByScore(min float64, max float64, opt ZRangeOption) []*ZSetMember {
@@ -130,20 +140,11 @@ func (zset *ZSet) RangeByScore(min float64, max float64, opt ZRangeOption) []*ZS
 		mems = append(mems, mem)
 	}
 
-	offset := opt.Offset
-	if offset < 0 {
-		offset = 0
-	}
-	count := opt.Count
-	if count < 0 {
-		count = len(mems)
+	if opt.REV {
+		mems = reverseZSetMembers(mems)
 	}
 
-	if !opt.REV {
-		return mems[offset:count]
-	}
-
-	return reverseZSetMembers(mems[offset:count])
+	return limitZSetMembers(mems, opt)
 }
 
 func (zset *ZSet) Rem(members []string) int {
